@@ -236,6 +236,15 @@ func checkSplit(c *h.Ctx, k *c09Case) {
 		c.Violate("split.items", feat, fmt.Sprintf("Query(P S) = %s but the concatenation over P's items %s of Query($ S, x) = %s", maskedList(of.Items), maskedList(op.Items), maskedList(want)), cs)
 	} else {
 		c.Held("split.items")
+		// asked only whether P S selects anything: some item of P has an S-item
+		// (every Query($ S, x) succeeded, so nothing can fail on the way)
+		if !k.silent {
+			oe := h.Call("exists", pf, doc, opts)
+			c.Eval(1)
+			if oe.Class != h.Panic && (oe.Class != h.OK || oe.Bool != (len(want) > 0)) {
+				c.Violate("split.items", h.F("mode", modeName(k.lax), "entry", "exists"), fmt.Sprintf("Exists(P S) = %s but Query($ S, x) over P's items %s gives %s", oe.Summary(), maskedList(op.Items), maskedList(want)), cs)
+			}
+		}
 		if c.WantSample("split") {
 			c.Sample("split", map[string]any{"P": ptxt, "S": stxt, "doc": k.doc, "result": maskedList(of.Items)})
 		}
@@ -796,7 +805,7 @@ func runC09(c *h.Ctx) {
 		if i%4 == 0 {
 			steps := chain.Next
 			if steps != nil && !containsKind(steps, gen.KRoot) && !idsFlow(chain) {
-				vals := []string{`1`, `"ab"`, `null`, `true`, `[1,2,{"a":3}]`, `{"b":[1,2]}`, `1.5`, `[]`, `{}`, `[[1],[2,3]]`, `"2023-08-15"`, `-2`}
+				vals := []string{`1`, `"ab"`, `null`, `true`, `[1,2,{"a":3}]`, `{"b":[1,2]}`, `1.5`, `[]`, `{}`, `[[1],[2,3]]`, `"2023-08-15"`, `-2`, `1.50`, `1e2`, `12345678901234567890`, `0.10`, `-0`, `100.0`}
 				v := vals[r.IntN(len(vals))]
 				checkHead(c, lax, &gen.N{K: gen.KVar, S: "x"}, steps, v, useNum)
 				switch v {
